@@ -225,6 +225,44 @@ def run(tier):
             ck.finding("R6.sibling-arms", "R6.sibling-arms/%s/%s" % (a, b), F.short_span(ex.span),
                        "Op::%s and Op::%s are the same operation with a different key source, but access different operands: only %s does %s; only %s does %s "
                        "(equivalent syntactic forms behave differently)" % (a, b, a, only_a, b, only_b))
+    # ---------------- R8 direction siblings (find / findLast, indexOf / lastIndexOf, reduce / reduceRight ...) read the
+    # receiver through the same protocol: the generic array-like helpers (ToLength + indexed get on any object) or the
+    # dense-array accessor.  Two natives that differ only in the direction they walk cannot differ in what they accept.
+    ck.rule("R8.direction-siblings", "natives that differ only in direction (X / XLast / XRight) read the receiver through the same protocol", floor=4)
+    groups = {}
+    for f in fx.fns.values():
+        if f.closure or f.derived or not f.file.startswith("src/interpreter/builtins/"):
+            continue
+        nm = f.path.split("::")[-1]
+        toks = nm.split("_")
+        if not ({"last", "right"} & set(toks)) and not any(True for _ in ()):
+            base = tuple(toks)
+        else:
+            base = tuple(t for t in toks if t not in ("last", "right"))
+        groups.setdefault((f.file, base), []).append(f)
+    for (fl, base), members in sorted(groups.items()):
+        if len(members) != 2:
+            continue
+        a, b = sorted(members, key=lambda g: len(g.path))
+        if {"last", "right"} & set(a.path.split("::")[-1].split("_")) or not ({"last", "right"} & set(b.path.split("::")[-1].split("_"))):
+            continue
+
+        def proto(g):
+            cs = {t[1].get("d", "") for h in fx.body_group(g) for _, t in h.calls()}
+            gen = any(c.endswith(("::get_array_like_length", "::get_array_like_element")) for c in cs)
+            dense = any(c.endswith("JsObject::array_length") for c in cs)
+            return "array-like" if gen else ("dense-array" if dense else "none")
+        pa, pb = proto(a), proto(b)
+        if "none" in (pa, pb):
+            continue
+        ok = pa == pb
+        ck.instance("R8.direction-siblings", "%s / %s" % (a.path.split("::")[-1], b.path.split("::")[-1]), F.short_span(b.span), ok=ok)
+        if not ok:
+            strict = b if pb == "dense-array" else a
+            loose = a if strict is b else b
+            ck.finding("R8.direction-siblings", "R8.direction-siblings/%s" % strict.path.split("::")[-1], F.short_span(strict.span),
+                       "`%s` insists on a real array (JsObject::array_length) while its sibling `%s` works on any array-like receiver: "
+                       "`Array.prototype.<method>.call(arrayLike, ..)` succeeds for one direction and throws for the other" % (strict.path.split("::")[-1], loose.path.split("::")[-1]))
     import inplace
     inplace.rule(fx, ck)
     return ck.finish()
